@@ -151,6 +151,8 @@ def run(chk):
     chk.rule_filter = lambda r: r.startswith("R3")
     C07.check_r3_slots(chk, "default", lib)
     chk.rule_prefix = "C01."
+    chk.rule_filter = lambda r: r.startswith("S3")
+    C01.check_s3(chk, m, K)          # queues never corrupted: no fibre is linked into a queue twice
     chk.rule_filter = lambda r: r.startswith("S6")
     C01.check_s4_s6(chk, m, K)
     chk.rule_prefix = "C03."
